@@ -8,7 +8,7 @@ from sa.emit import Elem, walk_elems
 from sa.flow import show, sig, subterms
 from sa.model import AnalysisError, norm, parent, walk_no_nested
 
-from .common import atomic_deps, include_rules, alts, callers_of, commands, is_call, is_plain_iter, loop_iteration_paths, need, prov, unshipped_modules
+from .common import lazy_reuse_rule, atomic_deps, include_rules, alts, callers_of, commands, is_call, is_plain_iter, loop_iteration_paths, need, prov, unshipped_modules
 from .c12 import traversal_funcs
 from .xmlcommon import documents
 
@@ -268,6 +268,8 @@ def run(report, p):
         names = sorted({s_ for s_, _, _ in sinks})
         r7.check(False, owner, node if node is not None else sinks[0][2], f"a path that went through `{show(bad)[:80]}` reaches {', '.join(names)}: with a symbolic link on the way the file is recorded under the link target's location (or outside the root), not under the name it has in the tree", construct=f"symlink-resolved path reaches {names[0]}")
     r7.check(True, None, None, "")
+
+    lazy_reuse_rule(report, p, 'R2.8', [need(cmds, 'create').qual], 'create')
 
     # ---- rules shared with other properties (same mechanism, same rule, reported under every property it can break)
     include_rules(report, p, 'c03', ['R3.11'], 'create logs every file it records; a logger that raises aborts the run before the generation is written')
